@@ -268,8 +268,19 @@ def ch_e2e(ctx, cases=None) -> Channel:
                 opts.append("base=0")
             cases.append((stream, f"/dash/{mode}/{stream}/{name}" + ("?" + "&".join(opts) if opts else ""), mode))
     if not ctx.thorough:
+        # quick tier: a stratified sample – for every stream one $Number$ manifest, one SegmentTimeline manifest
+        # and one on-demand (SegmentList) manifest, from templates that differ from stream to stream
         rng.shuffle(cases)
-        cases = cases[:22]
+        picked = []
+        for stream in dict.fromkeys(c[0] for c in cases):
+            mine = [c for c in cases if c[0] == stream]
+            for want in (lambda c: c[2] == "vod" and "timeline=1" not in c[1],
+                         lambda c: c[2] == "vod" and "timeline=1" in c[1],
+                         lambda c: c[2] == "odvod"):
+                hit = next((c for c in mine if want(c) and c not in picked), None)
+                if hit:
+                    picked.append(hit)
+        cases = picked
     if given is not None:
         cases = given
     with appboot.Clock(now):
